@@ -175,6 +175,9 @@ class Frame:
         self.func = func
         self.rets = []
         self.callsite = callsite
+        self.yields = []  # values of `yield` statements (generator helpers), in program order
+        self.yield_ok = True
+        self.loop_depth = 0
 
 
 class LoopCtx:
@@ -317,6 +320,7 @@ class Interp:
         saved_loops = self.loops
         if callsite is None:
             self.loops = []
+        fr.loop_depth = len(self.loops)
         end = self.exec_block(func.node.body, st)
         self.loops = saved_loops
         self.frames.pop()
@@ -334,6 +338,14 @@ class Interp:
             val = v if val is None else join(val, v)
             out = s if out is None else out.merge(s)
         out.env = saved_env
+        if any(isinstance(x, (ast.Yield, ast.YieldFrom)) for x in ast.walk(func.node)):
+            # a generator helper: the call denotes the sequence of yielded values.  Exact only when
+            # every yield was reached outside loops and outside input-valued branches (configuration
+            # tests are enumerated as valuations, so they select one straight-line path)
+            if fr.yield_ok and not any(isinstance(x, ast.YieldFrom) for x in ast.walk(func.node)):
+                val = Val("list", items=list(fr.yields), cfg=all(y.cfg for y in fr.yields), dep=frozenset().union(*[y.dep for y in fr.yields]) if fr.yields else frozenset())
+            else:
+                val = UNKNOWN
         # control dependence inside the callee does not extend to the caller's continuation
         # (the returned value itself carries the dependence)
         if callsite is not None:
@@ -374,6 +386,15 @@ class Interp:
 
     def st_Pass(self, s, st):
         return st
+
+    def ex_Yield(self, n, st):
+        v = self.eval(n.value, st) if n.value is not None else NONE
+        fr = self.frames[-1]
+        if st.ctrl or len(self.loops) > fr.loop_depth:
+            fr.yield_ok = False
+        else:
+            fr.yields.append(v)
+        return NONE
 
     def st_Import(self, s, st):
         for a in s.names:
